@@ -514,6 +514,23 @@ func check(prop, tier string, writeLock bool, filter string) int {
 			if o.Result.Status == "error" {
 				fmt.Println(o.Result.Raw)
 			}
+			if !o.WantSat && o.Result.Status != "unsat" {
+				// debugging aid: which conjunct of the goal is the problem?
+				parts := splitTopAnd(o.Goal)
+				if len(parts) > 1 {
+					for i, p := range parts {
+						o2 := *o
+						o2.Goal = p
+						q := renderQuery(&o2, seed)
+						r := solve(q, filepath.Join(smtDir, fmt.Sprintf("split_%d.smt2", i)), 5, seed, false, false)
+						pp := p
+						if len(pp) > 140 {
+							pp = pp[:140] + "..."
+						}
+						fmt.Printf("      conjunct %d: %-8s %s\n", i+1, r.Status, pp)
+					}
+				}
+			}
 		}
 		var as []string
 		for a := range assume {
@@ -575,4 +592,46 @@ func writeEvidence(path, prop, tier string, seed int, obls []*Obligation, sample
 	ev := map[string]interface{}{"property_id": prop, "tier": tier, "seed": seed, "level": "proof", "coverage": cov, "assumptions": assumptions, "wall_s": round3(wall), "violations": nViol}
 	b, _ := json.MarshalIndent(ev, "", " ")
 	_ = os.WriteFile(path, b, 0o644)
+}
+
+// splitTopAnd splits "(and a b c)" into its conjuncts (one level).
+func splitTopAnd(t string) []string {
+	t = strings.TrimSpace(t)
+	if !strings.HasPrefix(t, "(and ") || !strings.HasSuffix(t, ")") {
+		return []string{t}
+	}
+	body := t[5 : len(t)-1]
+	var parts []string
+	depth, start := 0, 0
+	inBar, inStr := false, false
+	for i := 0; i < len(body); i++ {
+		c := body[i]
+		switch {
+		case inStr:
+			if c == '"' {
+				inStr = false
+			}
+		case inBar:
+			if c == '|' {
+				inBar = false
+			}
+		case c == '"':
+			inStr = true
+		case c == '|':
+			inBar = true
+		case c == '(':
+			depth++
+		case c == ')':
+			depth--
+		case c == ' ' && depth == 0:
+			if i > start {
+				parts = append(parts, body[start:i])
+			}
+			start = i + 1
+		}
+	}
+	if start < len(body) {
+		parts = append(parts, body[start:])
+	}
+	return parts
 }
